@@ -4,7 +4,11 @@
 package gossip
 
 import (
+	"net"
+	"sort"
 	"time"
+
+	"github.com/hashicorp/memberlist"
 	"github.com/bbva/qed/log"
 	"github.com/bbva/qed/protocol"
 )
@@ -47,3 +51,46 @@ func VWasProcessedCfg(c Cache, b *protocol.BatchSnapshots, broadcastTimeout time
 
 // VTopology exposes the agent's view.
 func (a *Agent) VTopology() *Topology { return a.topology }
+
+// VMemberEvent is one membership notification as memberlist delivers it to the agent's event delegate.
+type VMemberEvent struct {
+	Kind int // 0 join, 1 leave, 2 update
+	Name string
+	Role string
+	Port uint16
+}
+
+// VDelegateView feeds the notifications to a fresh agent's event delegate (never concurrently, as memberlist does)
+// and returns, after each one, the names the agent's topology lists for every role.
+func VDelegateView(events []VMemberEvent, roles []string) [][]string {
+	a := bareAgent(NewPeer("self", "127.0.0.1", 1, "auditor"), NewTopology())
+	d := &eventDelegate{agent: a, log: log.L()}
+	var views [][]string
+	for _, e := range events {
+		meta, _ := (&Meta{Role: e.Role}).Encode()
+		n := &memberlist.Node{Name: e.Name, Addr: net.ParseIP("127.0.0.1"), Port: e.Port, Meta: meta}
+		switch e.Kind {
+		case 0:
+			d.NotifyJoin(n)
+		case 1:
+			d.NotifyLeave(n)
+		default:
+			d.NotifyUpdate(n)
+		}
+		var view []string
+		for _, r := range roles {
+			var names []string
+			if pl := a.topology.Get(r); pl != nil {
+				for _, p := range pl.L {
+					if p != nil {
+						names = append(names, r+"/"+p.Name)
+					}
+				}
+			}
+			sort.Strings(names)
+			view = append(view, names...)
+		}
+		views = append(views, view)
+	}
+	return views
+}
